@@ -16,12 +16,19 @@ def judge(case, g):
                 return ("c03:" + k, "%s differs: Rust %s, C %s" % (k, r[k], c[k]))
     return None
 
+def jets_file(c):
+    """the crate's jet tables for the spec decoder (Codec.tla JetRows)"""
+    p = os.path.join(c.work, "jets.ndjson")
+    if not os.path.exists(p) or os.path.getmtime(p) < c.t0:
+        c.vh(["c14", "table", p])
+    return p
+
 def body(c):
     q = not c.thorough
     tier = "quick" if q else "thorough"
     cases = []
     for mode in ("lists", "programs", "strings"):
-        r = c.tlc_design("MC_Codec", "MC_Codec_%s_%s.cfg" % (mode, tier), heap="24g", timeout=3400, workers=16)
+        r = c.tlc_design("MC_Codec", "MC_Codec_%s_%s.cfg" % (mode, tier), heap="24g", timeout=3400, workers=16, env={"JETS": jets_file(c)})
         cs = tla_to_json_lines(r.prints, "CASE")
         for x in cs:
             if x["mode"] == "programs":
